@@ -2051,10 +2051,10 @@ class unyt_array(np.ndarray):
                 ufunc is floor_divide
                 and u0 is not u1
                 and u0 != u1
-                and not u0.is_dimensionless
                 and u0.same_dimensions_as(u1)
             ):
                 # floor(a/b) is not scale covariant: bring b to a's units first
+                # (also for pure numbers written in a scaled unit such as percent)
                 conv, _ = u1.get_conversion_factor(u0, inp1.dtype)
                 inp1 = np.asarray(inp1, dtype=np.result_type(inp1.dtype, np.float16)) * conv
                 u1 = u0
